@@ -1196,6 +1196,11 @@ def run(ctx):
         exhaustive(ctx, r)
     from harness.props import c04_qm
     c04_qm.run(ctx)
+    # the op alphabet, checked against the source (harness/props/c04_alphabet.py)
+    from harness.props import c04_alphabet
+    bq = lambda code: any(k.split(':')[0] == code and k.split(':')[1:2] in (['d'], ['view']) for k in ctx.hist) or (code == 'sc' and any(k.startswith('sci:') for k in ctx.hist))
+    qq = lambda code: any(k == 'qm:' + code or k.startswith('qm:' + code + ':') for k in ctx.hist)
+    c04_alphabet.alphabet_check(ctx, {'BinaryQuadraticModel': bq, 'QuadraticModel': qq})
 
 
 def exhaustive(ctx, r):
